@@ -30,7 +30,8 @@ func LimitCryptionHandler(limitBytes int64, key []byte) func(http.Handler) http.
 			cw := newCryptionResponseWriter(w)
 			defer cw.flush(r.Context(), key)
 
-			if r.ContentLength <= 0 {
+			// -1 means "unknown length" (e.g. chunked), not "no body"
+			if r.ContentLength == 0 {
 				next.ServeHTTP(cw, r)
 				return
 			}
@@ -60,6 +61,11 @@ func decryptBody(limitBytes int64, key []byte, r *http.Request) error {
 	}
 	if err != nil {
 		return err
+	}
+	if len(content) == 0 {
+		// a body of unknown length that turned out to be empty: nothing to decrypt
+		r.Body = http.NoBody
+		return nil
 	}
 
 	content, err = base64.StdEncoding.DecodeString(string(content))
